@@ -548,7 +548,7 @@ def full_api_histories(rep, seed, n=60):
 
     def make_prog():
         ops = [rnd.choice(unary) for _ in range(rnd.randint(1, 3))]
-        kind = rnd.choice(["elem", "dot", "inv", "qr", "buf", "solve", "eigh"])
+        kind = rnd.choice(["elem", "dot", "inv", "qr", "buf", "solve", "eigh", "cholesky", "det", "logdet", "svd", "lu", "expm"])
         def f(x):
             y = x * 0.25 + 0.5
             for u in ops:
@@ -575,6 +575,23 @@ def full_api_histories(rep, seed, n=60):
                 S = A + A.T + numpy.array([[3., 0.], [0., -4.]])
                 l, Q = algopy.eigh(S)
                 return algopy.sum(l * numpy.array([1., 2.]))
+            if kind in ("cholesky", "det", "logdet", "svd", "lu", "expm"):
+                A = algopy.reshape(y, (2, 2))
+                S = algopy.dot(A, A.T) + numpy.array([[3., 0.5], [0.5, 4.]])
+                if kind == "cholesky":
+                    return algopy.sum(algopy.cholesky(S) * numpy.array([[1., 2.], [3., 5.]]))
+                if kind == "det":
+                    return algopy.det(S) + algopy.det(A + numpy.array([[3., 0.], [1., 4.]]))
+                if kind == "logdet":
+                    return algopy.logdet(S)
+                if kind == "svd":
+                    U_, s_, V_ = algopy.svd(A + numpy.array([[3., 0.], [1., 1.]]))
+                    return algopy.sum(s_ * numpy.array([1., 2.]))
+                if kind == "lu":
+                    W_, L_, U_ = algopy.lu(A + numpy.array([[3., 0.], [1., 4.]]))
+                    return algopy.sum(L_ * numpy.array([[1., 2.], [3., 5.]])) + algopy.sum(U_ * numpy.array([[2., -1.], [1., 3.]]))
+                if kind == "expm":
+                    return algopy.sum(algopy.expm(A * 0.25) * numpy.array([[1., 2.], [3., 5.]]))
             if kind == "buf":
                 b = algopy.zeros(2, dtype=x)
                 b[0] = y[0] * y[1]
@@ -810,6 +827,10 @@ def full_api_adjoint(rep, seed, n=80):
             ("div_const_bigger", lambda x: algopy.sum(x[:2] / numpy.array([[1., 2.], [3., 4.], [5., 6.]]) + numpy.array([[1., 2.], [3., 4.], [5., 6.]]) / x[2:])),
             ("special", lambda x: algopy.sum(algopy.special.erf(x) * algopy.special.expit(x) + algopy.special.dawsn(x))),
             ("elementary", lambda x: algopy.sum(algopy.exp(algopy.sin(x)) * algopy.log(x * x + 1.) + algopy.sqrt(x * x + 2.) * algopy.tan(x * 0.5) + algopy.cos(x))),
+            # reshape / flatten of intermediates that own their data in a transposed layout
+            ("reshape_scaled_transpose", lambda x: algopy.sum(algopy.reshape(2.0 * algopy.reshape(x * x, (2, 2)).T, (4,)) * numpy.array([1., 2., 3., 4.]))),
+            ("reshape_sum_of_transposes", lambda x: (lambda X: algopy.sum(algopy.reshape(X.T + (X * X).T, (4,)) * numpy.array([1., 2., 3., 4.])))(algopy.reshape(x, (2, 2)))),
+            ("reshape_transpose_times_const", lambda x: (lambda X: algopy.sum(algopy.reshape(X.T * W22, (1, 4)) * numpy.array([[1., 2., 3., 4.]])))(algopy.reshape(x * x, (2, 2)))),
             # every broadcasting direction of the binary operators between traced operands (the smaller operand's adjoint is a sum)
             ("div_num_scalar_over_vec", lambda x: algopy.sum((x[0] * x[1]) / (x * x + 1.))),
             ("div_num_row_over_mat", lambda x: algopy.sum((x[:2] * x[2:]) / (algopy.reshape(x, (2, 2)) + 2.) * W22)),
